@@ -31,6 +31,16 @@ def main(argv):
             if not os.path.isdir(d):
                 continue
             name = '%s-%s%s' % (prop, tag, v)
+            area = None
+            if prop not in props:
+                # a change written against an area of the code, not a property: the property it breaks is named on the first line of its notes
+                first = open(os.path.join(d, 'notes.md')).readline() if os.path.exists(os.path.join(d, 'notes.md')) else ''
+                ids = re.findall(r'C[0-9][0-9]', first)
+                if not ids:
+                    print(prop, v, 'no "breaks: Cnn" line'); continue
+                area, prop_dir = prop, prop
+                prop = ids[0]
+                name = '%s-%s%s%s' % (prop, tag, area.lower(), v)
             env = dict(os.environ, VERIF_QUICK_S=os.environ.get('VERIF_QUICK_S', '20'))
             p = subprocess.run([PY, os.path.join(ROOT, 'tools', 'seedtest.py'), d, '--checks', prop, '--seeds', '0,1,2'], capture_output=True, text=True, env=env)
             try:
@@ -50,7 +60,7 @@ def main(argv):
             if m:
                 needs = (m.group(1) + m.group(2)).strip()[:900]
             meta = dict(
-                id=name, breaks_property=prop, property_title=props[prop]['title'],
+                id=name, breaks_property=prop, written_against_area=area, property_title=props[prop]['title'],
                 origin='written by an independent sub-agent given only the property text and a scratch worktree of /repo (nothing from /verif)',
                 needs_to_manifest=needs or 'see notes.md',
                 confirmed=confirmed,
@@ -65,6 +75,8 @@ def main(argv):
                 json.dump(meta, f, indent=1)
                 f.write('\n')
             print('%-8s confirmed=%s caught=%s %s' % (name, confirmed, caught, {k: c['rc'] for k, c in res.get('checks', {}).items()}), flush=True)
+            if area is not None:
+                prop = area
 
 if __name__ == '__main__':
     main(sys.argv[1:])
